@@ -247,6 +247,9 @@ def queries(tier):
                              "value (<= 1 printable ASCII character each), status written from %r, cookie from %r, Accept json or "
                              "not; later request concrete" % (k1, k2, " (Accept: application/json)" if j2 else "", STATUS, COOKIES),
                              timeout=150 if not T else 400, per_path_timeout=40, family="pair"))
+    # the configuration dimension: the same effective settings reached through app.setup / two setup calls
+    from vf import appconfigs
+    out += appconfigs.variants(list(out), ["setup", "setup-twice"], lambda q: q.qid in ("pair/oversize/body", "pair/body6/body", "retain/body6", "pair/badchunk/ok", "pair/crash/ok", "pair/404/ok"))
     return out
 
 
